@@ -159,6 +159,8 @@ type runState struct {
 	lmod  []LSpec // listeners as configured by the operator (after edits), in creation order
 	lorig map[string]HTTPSpec // HTTP listeners that were edited: the configuration before the first edit
 	https []*handlers.HTTP
+	restarts int
+	restartFn func() bool // how a "restart" operation is carried out (nil: in-process transcription)
 }
 
 func newRun(w *pvx.World, h History) *runState {
@@ -213,6 +215,11 @@ func httpInfo(l LSpec) map[string]any {
 func (r *runState) apply(op Op) bool {
 	w := r.w
 	switch op.K {
+	case "restart":
+		if r.restartFn != nil {
+			return r.restartFn()
+		}
+		return r.restart()
 	case "ladd":
 		if op.L == nil {
 			return false
@@ -236,6 +243,17 @@ func (r *runState) apply(op Op) bool {
 			}
 		default:
 			return false
+		}
+		// the add is acknowledged only if the server now runs a listener of that name (it refuses
+		// e.g. a second External listener on an endpoint that is taken: the operator gets an error)
+		accepted := false
+		for _, l := range w.TS.Listeners {
+			if l.Name == op.L.Name {
+				accepted = true
+			}
+		}
+		if !accepted {
+			return true
 		}
 		r.lmod = append(r.lmod, *op.L)
 		return true
